@@ -12,7 +12,7 @@ R6 parity decisions derive from the written format (shared parity rule)
 """
 import ast
 
-from sa import sym, termdiff
+from sa import sym, boolalg, termdiff
 from sa.sym import show, num, num_value, atoms_of
 from sa.cfg import CFG, enclosing_stmts
 from sa.model import dotted, own_calls, own_nodes, callee_attr
@@ -74,7 +74,7 @@ def _subst(t, m):
 
 
 def _signature(project, f, kind):
-    ev = sym.make_evaluator(project, MT, [])
+    ev = sym.make_evaluator(project, MT, [], inline_local=True)
     r = ev.run(f.node)
     # identify the current image / descriptor
     if kind == "serial":
@@ -82,7 +82,11 @@ def _signature(project, f, kind):
         if not loops:
             return None, "no `for image, desc in zip(...)` loop", r
         k, it, lnode = loops[0]
-        img, desc = ("item", ("elem", it), 0), ("item", ("elem", it), 1)
+        el0 = ev._iter_elem(it)
+        if el0[0] == "tuple" and len(el0[1]) == 2:
+            img, desc = el0[1]
+        else:
+            img, desc = ("item", ("elem", it), 0), ("item", ("elem", it), 1)
         source = it
     else:
         gets = [e for e in r.events if e.kind == "call" and e.term[1][0] == "attr" and e.term[1][2] == "get"]
@@ -136,7 +140,7 @@ def _signatures(run):
             carried = [a for c, p in conds for a in atoms_of(c) if a[0] == "sym" and "@L" in a[1]]
             if recv != IMG:
                 run.violated("C09.R2", f, sg["nodes"]["flip"][0].node, "%s: flip_parity is applied to %s, not to the current image" % (label, show(recv)[:60]), kind="flip-receiver")
-            elif conds == ((want_flip_cond, True),):
+            elif boolalg.equiv(boolalg.conj(conds), want_flip_cond) is True:
                 run.holds("C09.R2", f, sg["nodes"]["flip"][0].node, "%s: image flipped exactly when its parity differs from the tile format's" % label)
             elif carried:
                 run.violated("C09.R2", f, sg["nodes"]["flip"][0].node, "%s: the decision to flip the current image depends on state carried over from previous "
@@ -297,7 +301,7 @@ def _r4_cleanup(run):
         return
     tl = template(pl, ("sym", up.params()[1]))
     tc = template(pc, posc)
-    rng = ("call", ("sym", "range"), (num(0), ("op", "pow", (num(2), level))), ())
+    rng = ("call", ("sym", "range"), (("op", "pow", (num(2), level)),), ())
     want_pos = ("nt", "Pos", (level, ("elem", rng), ("elem", rng)))
     if tl != tc:
         run.violated("C09.R4", cl, unl[0].node, "clean_lockfiles removes %s but update_image locks %s: the lock files are not the ones cleaned" % (show(tc)[:100], show(tl)[:100]),
@@ -338,66 +342,98 @@ def _r5_pixelization(run):
                     nm, show(got)[:80], show(w_)[:80]), kind="subimage-geometry")
             else:
                 run.holds("C09.R5", f, cfs[0].node, "compute_for_subimage(imin, jmin, imax+1-imin, jmax+1-jmin)")
-    # (b) imin/imax/jmin/jmax from the matching axis extrema
+    # the global extremum of one per-input field, in either spelling:
+    #   running   g = x if g is None else min(g, x)   (value right after the loop)
+    #   aggregate g = min(d.<field> for d in <the list the descriptors are appended to>)
     stores = {}
     for e in r.events:
         if e.kind == "store" and e.term[1][0][0] == "attr" and e.term[1][0][2] in ("imin", "imax", "jmin", "jmax", "crxmin", "crxmax", "crymin", "crymax"):
             stores.setdefault(e.term[1][0][2], []).append((e.term[1][0][1], e.term[1][1], e))
+    appended = [e for e in r.events if e.kind == "call" and e.term[1][0] == "attr" and e.term[1][2] == "append" and [c for c in e.pc if c[0] == "loop"]]
+    containers = {e.term[1][1] for e in appended}
+
+    def global_extremum(red, fld):
+        """(term, None) or (None, (verdict, node, message))"""
+        # aggregate spelling
+        for e in r.events:
+            if e.kind != "assign" or [c for c in e.pc if c[0] == "loop"]:
+                continue
+            v = e.term[1][1]
+            if v[0] == "call" and v[1] == ("sym", red) and len(v[2]) == 1 and v[2][0][0] == "op" and v[2][0][1] == "comp" and len(v[2][0][2]) == 4:
+                kind, elt, it, cond = v[2][0][2]
+                if elt == ("attr", ("elem", it), fld) and cond == sym.TRUE:
+                    if it in containers or not containers:
+                        return v, None
+                    return None, ("violated", e.node, "%s of %s is taken over %s, not over the descriptors collected by this function" % (red, fld, show(it)[:60]))
+            if v[0] == "call" and v[1] == ("sym", {"min": "max", "max": "min"}[red]) and len(v[2]) == 1 and v[2][0][0] == "op" and v[2][0][1] == "comp" \
+                    and len(v[2][0][2]) == 4 and v[2][0][2][1] == ("attr", ("elem", v[2][0][2][2]), fld):
+                return None, ("violated", e.node, "the global extremum of %s is computed with %s; expected %s" % (fld, v[1][1], red))
+        # running spelling: a local updated in the loop as red(local, <stored field value>)
+        sval = [v for obj, v, e in stores.get(fld, []) if [c for c in e.pc if c[0] == "loop"]]
+        for e in r.events:
+            if e.kind != "assign" or not [c for c in e.pc if c[0] == "loop"]:
+                continue
+            name = e.term[1][0][1]
+            t = e.term[1][1]
+            if t[0] == "call" and t[1][0] == "sym" and t[1][1] in ("min", "max") and len(t[2]) == 2 and sval and sval[0] in t[2]:
+                carried = [a for a in t[2] if a[0] == "sym" and a[1].startswith(name + "@L")]
+                if t[1][1] != red or len(carried) != 1:
+                    return None, ("violated", e.node, "%s is updated as %s; expected %s(%s, mtdesc.%s)" % (name, show(t)[:100], red, name, fld))
+                return _after_loop_value(r, name), None
+        return None, ("undecided", None, "no global %s of %s found (neither a running update nor %s(d.%s for d in ...))" % (red, fld, red, fld))
+
+    G = {}
+    glob_ok = True
+    for red, fld in (("min", "crxmin"), ("max", "crxmax"), ("min", "crymin"), ("max", "crymax")):
+        t, err = global_extremum(red, fld)
+        if t is None:
+            glob_ok = False
+            verdict, node, msg = err
+            (run.violated if verdict == "violated" else run.undecided)("C09.R5", f, node, msg, kind="global-extrema" if verdict == "violated" else "global-extrema-shape")
+        G[(red, fld)] = t
+    if glob_ok:
+        run.holds("C09.R5", f, None, "global extrema: min of minima / max of maxima per axis")
+    # (b) imin/imax/jmin/jmax from the matching axis extrema
     okb = True
-    for fld, fn_, src, glob in (("imin", "floor", "crxmin", "global_crxmin"), ("imax", "ceil", "crxmax", "global_crxmin"),
-                                ("jmin", "floor", "crymin", "global_crymin"), ("jmax", "ceil", "crymax", "global_crymin")):
+    for fld, fn_, src, gkey in (("imin", "floor", "crxmin", ("min", "crxmin")), ("imax", "ceil", "crxmax", ("min", "crxmin")),
+                                ("jmin", "floor", "crymin", ("min", "crymin")), ("jmax", "ceil", "crymax", ("min", "crymin"))):
         if fld not in stores:
             okb = False
             run.undecided("C09.R5", f, None, "desc.%s is never set" % fld, kind="extent-missing")
+            continue
+        if G.get(gkey) is None:
+            okb = False
             continue
         obj, val, e = stores[fld][-1]
         s_ = show(val)
         inner = val
         while inner[0] == "call" and show(inner[1]) in ("int", "np.floor", "np.ceil", "math.floor", "math.ceil") and inner[2]:
             inner = inner[2][0]
-        want_inner = sym.sub(("attr", obj, src), _after_loop_value(r, glob))
+        want_inner = sym.sub(("attr", obj, src), G[gkey])
         uses_fn = ("np." + fn_) in s_ and s_.startswith("int(")
         if inner != want_inner or not uses_fn:
             okb = False
-            run.violated("C09.R5", f, e.node, "desc.%s = %s; expected int(np.%s(desc.%s - %s))" % (fld, s_[:100], fn_, src, glob), kind="extent-" + fld)
+            run.violated("C09.R5", f, e.node, "desc.%s = %s; expected int(np.%s(desc.%s - global minimum of %s))" % (fld, s_[:100], fn_, src, gkey[1]), kind="extent-" + fld)
     if okb:
         run.holds("C09.R5", f, None, "imin/jmin = floor(crmin - global min), imax/jmax = ceil(crmax - global min), axis by axis")
-    # (c) global extrema: min over minima, max over maxima
-    glob_ok = True
-    for name, red, fld in (("global_crxmin", "min", "crxmin"), ("global_crxmax", "max", "crxmax"), ("global_crymin", "min", "crymin"), ("global_crymax", "max", "crymax")):
-        ass = [e for e in r.events if e.kind == "assign" and e.term[1][0] == ("sym", name) and [c for c in e.pc if c[0] == "loop"]]
-        upd = [e for e in ass if e.term[1][1][0] == "call" and e.term[1][1][1][0] == "sym"]
-        if not upd:
-            glob_ok = False
-            run.undecided("C09.R5", f, None, "no running %s update found" % name, kind="global-extrema-shape")
-            continue
-        t = upd[0].term[1][1]
-        sval = [v for obj, v, e in stores.get(fld, []) if [c for c in e.pc if c[0] == "loop"]]
-        carried = [a for a in t[2] if a[0] == "sym" and a[1].startswith(name + "@L")]
-        okv = t[1][1] == red and len(t[2]) == 2 and len(carried) == 1 and sval and sval[0] in t[2]
-        if not okv:
-            glob_ok = False
-            run.violated("C09.R5", f, upd[0].node, "%s is updated as %s; expected %s(%s, mtdesc.%s)" % (name, show(t)[:100], red, name, fld), kind="global-extrema")
-    if glob_ok:
-        run.holds("C09.R5", f, None, "global extrema: min of minima / max of maxima per axis")
     # (d) global reference pixel independent of the last input: CRPIX = 1 - global min
-    for key, glob in (("CRPIX1", "global_crxmin"), ("CRPIX2", "global_crymin")):
+    for key, gkey in (("CRPIX1", ("min", "crxmin")), ("CRPIX2", ("min", "crymin"))):
         st = [e for e in r.events if e.kind == "store" and e.term[1][0][0] == "sub" and e.term[1][0][2] == ("const", key)
               and not [c for c in e.pc if c[0] == "loop"]]
         if not st:
             run.undecided("C09.R5", f, None, "ref_headers[%r] is not set after the loop" % key, kind="crpix-missing")
             continue
+        g = G.get(gkey)
+        if g is None:
+            continue
         val = st[-1].term[1][1]
-        # expected: 1 - <global minimum of this axis>; in particular the last input's own CRPIX must cancel out
         d = dict(val[1]) if val[0] == "poly" else {}
-        const = d.get((), 0)
         rest = {m: c for m, c in d.items() if m != ()}
-        g = _after_loop_value(r, glob)
         if val == sym.sub(num(1), g):
-            run.holds("C09.R5", f, st[-1].node, "global %s = 1 - %s: the last input's own reference pixel cancels out" % (key, glob))
+            run.holds("C09.R5", f, st[-1].node, "global %s = 1 - global minimum of %s: the last input's own reference pixel cancels out" % (key, gkey[1]))
         else:
             lead = [a for m in rest for a, p in m if a != g]
-            run.violated("C09.R5", f, st[-1].node, "global %s is %s, expected 1 - %s%s" % (key, show(val)[:140], glob,
+            run.violated("C09.R5", f, st[-1].node, "global %s is %s, expected 1 - (global minimum of %s)%s" % (key, show(val)[:140], gkey[1],
                          ("; it still depends on the last input through %s" % show(lead[0])[:60]) if lead else ""), kind="crpix-value")
 
 
